@@ -11,6 +11,7 @@ From Pnc Require Import Proofs_Exec.
 From Pnc Require Import CSub.
 From Pnc Require Import Gen_contig.
 From Pnc Require Import Proofs_GenContig.
+From Pnc Require Import Proofs_Reach3.
 Set Printing Width 100.
 Set Printing Depth 100000.
 
@@ -405,7 +406,96 @@ Proof. exact @gen_is_contig_eq. Qed.
 Print Assumptions C01_gen_is_contig_eq.
 
 (* the translator met no construct outside its subset *)
+(* ---- for EVERY reachable state of the API-level model (Proofs_Reach*.v) ---- *)
+(* C01 put then get (for every history) ---------------- *)
+(* any reachable state: an independent put the interpreter accepts, then a typed get of the same request, *)
+(* returns NC_NOERR and the image of the data put; slot range / wf_geom / rec_fits come from the invariant *)
 Theorem C01_gen_contig_subset_complete :
   tr_cfun_unsupported = nil.
 Proof. exact @gen_contig_subset_complete. Qed.
 Print Assumptions C01_gen_contig_subset_complete.
+
+(* the same for any world satisfying the invariant (also: the invariant holds after the put) *)
+Theorem C01_reachable_put_get :
+  forall (n : Z) (cs : list cmd) (id : Z) (f : Exec.filest) (rank : Z) 
+           (a : Exec.access) (r : Exec.rreq) (w'' : Exec.world) (obs : list Exec.obs) 
+           (rank2 : Z) (coll2 : bool) (a2 : Exec.access),
+         (1 <= n)%Z ->
+         run_ok (Exec.world0 n) cs = true ->
+         let w := run (Exec.world0 n) cs in
+         Base.znth (Exec.w_files w) id None = Some f ->
+         Exec.f_tainted f = false ->
+         Exec.sanity f true true false a = Gen_consts.NC_NOERR ->
+         Exec.check_request w f rank false a = (Gen_consts.NC_NOERR, Some (r :: nil)) ->
+         Exec.iomismatch a (r :: nil) = false ->
+         form_lengths (Exec.ac_form a) (length (Access.g_shape (acc_geom f a))) ->
+         Exec.indep_put w id f rank a = (w'', obs) ->
+         let f' := Exec.indep_numrecs f rank (put_newrecs f a r) in
+         Exec.ac_var a2 = Exec.ac_var a ->
+         Exec.sanity f' false true coll2 a2 = Gen_consts.NC_NOERR ->
+         Exec.check_request w'' f' rank2 true a2 = (Gen_consts.NC_NOERR, Some (r :: nil)) ->
+         Exec.ac_buf a2 = Exec.BTyped ->
+         Exec.ac_memt a2 = acc_xt f' a2 ->
+         form_lengths (Exec.ac_form a2) (length (Access.g_shape (acc_geom f' a2))) ->
+         Exec.get_rank_op w'' f' rank2 coll2 a2 =
+         (Gen_consts.NC_NOERR,
+          Exec.THex
+            (Exec.guard_bytes ++
+             flat_map (fun k : Z => Data.mem_of_be (put_elem a (acc_xt f a) k))
+               (Base.zrange 0 (Exec.nelems_of r)) ++ Exec.guard_bytes) :: nil).
+Proof. exact @reachable_put_get. Qed.
+Print Assumptions C01_reachable_put_get.
+
+(* the collective put (per-rank accesses, numrecs agreement) and the independent put preserve the invariant *)
+Theorem C01_inv_put_get :
+  forall (w : Exec.world) (id : Z) (f : Exec.filest) (rank : Z) (a : Exec.access)
+           (r : Exec.rreq) (w'' : Exec.world) (obs : list Exec.obs) (rank2 : Z) 
+           (coll2 : bool) (a2 : Exec.access),
+         Proofs_Reach.world_inv w ->
+         Base.znth (Exec.w_files w) id None = Some f ->
+         Exec.f_tainted f = false ->
+         Exec.sanity f true true false a = Gen_consts.NC_NOERR ->
+         Exec.check_request w f rank false a = (Gen_consts.NC_NOERR, Some (r :: nil)) ->
+         Exec.iomismatch a (r :: nil) = false ->
+         form_lengths (Exec.ac_form a) (length (Access.g_shape (acc_geom f a))) ->
+         Exec.indep_put w id f rank a = (w'', obs) ->
+         let f' := Exec.indep_numrecs f rank (put_newrecs f a r) in
+         Exec.ac_var a2 = Exec.ac_var a ->
+         Exec.sanity f' false true coll2 a2 = Gen_consts.NC_NOERR ->
+         Exec.check_request w'' f' rank2 true a2 = (Gen_consts.NC_NOERR, Some (r :: nil)) ->
+         Exec.ac_buf a2 = Exec.BTyped ->
+         Exec.ac_memt a2 = acc_xt f' a2 ->
+         form_lengths (Exec.ac_form a2) (length (Access.g_shape (acc_geom f' a2))) ->
+         Proofs_Reach.world_inv w'' /\
+         Base.znth (Exec.w_files w'') id None = Some f' /\
+         Exec.get_rank_op w'' f' rank2 coll2 a2 =
+         (Gen_consts.NC_NOERR,
+          Exec.THex
+            (Exec.guard_bytes ++
+             flat_map (fun k : Z => Data.mem_of_be (put_elem a (acc_xt f a) k))
+               (Base.zrange 0 (Exec.nelems_of r)) ++ Exec.guard_bytes) :: nil).
+Proof. exact @inv_put_get. Qed.
+Print Assumptions C01_inv_put_get.
+
+Theorem C01_coll_put_inv :
+  forall (w : Exec.world) (id : Z) (f : Exec.filest) (ras : list (Z * Exec.access)),
+         Proofs_Reach.world_inv w ->
+         Base.znth (Exec.w_files w) id None = Some f ->
+         Exec.f_tainted f = false ->
+         (forall ra : Z * Exec.access, In ra ras -> Proofs_Reach.put_acc_ok f (snd ra) = true) ->
+         Proofs_Reach.world_inv (fst (Exec.coll_put w id f ras)).
+Proof. exact @coll_put_inv. Qed.
+Print Assumptions C01_coll_put_inv.
+
+Theorem C01_indep_put_inv :
+  forall (w : Exec.world) (id : Z) (f : Exec.filest) (rank : Z) (a : Exec.access),
+         Proofs_Reach.world_inv w ->
+         Base.znth (Exec.w_files w) id None = Some f ->
+         Exec.f_tainted f = false ->
+         Proofs_Reach.put_acc_ok f a = true ->
+         Proofs_Reach.world_inv (fst (Exec.indep_put w id f rank a)) /\
+         (exists f' : Exec.filest,
+            Base.znth (Exec.w_files (fst (Exec.indep_put w id f rank a))) id None = Some f' /\
+            Exec.f_tainted f' = false /\ Exec.f_hdr f' = Exec.f_hdr f).
+Proof. exact @indep_put_inv. Qed.
+Print Assumptions C01_indep_put_inv.
